@@ -216,6 +216,10 @@ package factory
 //@ ensures [early-reference-built] implies(result1 == nil, MetaOK(result0))
 //@ ensures [error-means-nil] implies(result1 != nil, result0 == nil)
 //@ ensures [unwrapped-is-same-meta] implies(result1 == nil && result0 != m, fresh(result0) && result0.ProxyMeta == m && len(result0.Dependent) == 0)
+// exposed: (ghost, local to this function) what the post-processors handed back for the early reference
+//@ ghost local exposed any
+//@ ghost after call GetEarlyBeanReference: exposed = exposedComponent
+//@ ensures [substituted-reference-is-wrapped] implies(result1 == nil, result0.Raw == exposed && implies(exposed == m.Raw, result0 == m))
 //@ ensures [failure-surfaces] implies(result1 == nil, Failed == old(Failed))
 
 // The early-reference callback registered for a component in creation: a closure over (f, name, meta).
